@@ -2,7 +2,7 @@
    Only statements, each closed by `exact`, with Print Assumptions beneath. Model: Unify.v (fuel = recursion depth;
    every statement holds for every fuel whenever the outcome is definite; totality is C01_total). *)
 From Coq Require Import List NArith ZArith.
-From GMK Require Import Term Unify UnifySpec UnifyWf UnifyTotal.
+From GMK Require Import Term Unify UnifySpec UnifyWf UnifyTotal GoLite gen.MicroGen MicroGenSpec.
 Import ListNotations.
 
 (* on success the result keeps every earlier binding (it is the old slice with pairs appended) ... *)
@@ -86,6 +86,50 @@ Theorem C01_goal : forall f u v st l, equalo f u v st = Some l ->
               forall r, sat r s' <-> (sat r (sub st) /\ inst r u = inst r v)).
 Proof. exact equalo_spec. Qed.
 Print Assumptions C01_goal.
+
+(* ---- the code itself.  gen/MicroGen.v is translated from micro/walk.go, exts.go, unify.go on every run (statement by
+   statement, into a result monad with out-of-fuel and panic outcomes); the generated functions ARE the model above, for
+   every input and every recursion budget, so each theorem above is a theorem about the text of /repo as it is now. *)
+Theorem C01_code_is_model : forall f u v s x,
+  g_unify f u v s = of_res (unify f u v s) /\ g_exts f x v s = of_res (exts f x v s) /\
+  g_occurs f x v s = of_opt (occurs f x v s) /\ g_walk f x s = of_opt (walk f x s) /\
+  g_walkStar f v s = of_opt (walkstar f v s) /\ g_assv x s = Ret (of_assv (assv x s)).
+Proof. exact (fun f u v s x => conj (g_unify_spec f u v s) (conj (g_exts_spec f x v s) (conj (g_occurs_spec f x v s)
+               (conj (g_walk_spec f x s) (conj (g_walkStar_spec f v s) (g_assv_spec x s)))))). Qed.
+Print Assumptions C01_code_is_model.
+
+(* no nil dereference, no Car/Cdr of an atom, no index out of range - on any input, consistent or not *)
+Theorem C01_code_never_panics : forall f u v s x,
+  g_unify f u v s <> Panic /\ g_walk f x s <> Panic /\ g_occurs f x v s <> Panic /\ g_exts f x v s <> Panic /\
+  g_walkStar f v s <> Panic /\ g_reifys f v s <> Panic /\ g_assv x s <> Panic.
+Proof. exact code_never_panics. Qed.
+Print Assumptions C01_code_never_panics.
+
+Theorem C01_code_mgu : forall f u v s s', g_unify f u v s = Ret (s', true) ->
+  (exists ext, s' = s ++ ext) /\ forall r, sat r s' <-> (sat r s /\ inst r u = inst r v).
+Proof. exact code_unify_mgu. Qed.
+Print Assumptions C01_code_mgu.
+
+Theorem C01_code_fail : forall f u v s s', g_unify f u v s = Ret (s', false) ->
+  s' = [] /\ ~ exists r, sat r s /\ inst r u = inst r v.
+Proof. exact code_unify_fail. Qed.
+Print Assumptions C01_code_fail.
+
+Theorem C01_code_total : forall u v s, wf s ->
+  exists f0, forall f, (f0 <= f)%nat -> exists s' b, g_unify f u v s = Ret (s', b).
+Proof. exact code_unify_total. Qed.
+Print Assumptions C01_code_total.
+
+Theorem C01_code_wf : forall f u v s s', wf s -> g_unify f u v s = Ret (s', true) -> wf s'.
+Proof. exact code_unify_wf. Qed.
+Print Assumptions C01_code_wf.
+
+Example C01_code_nonvacuous :
+  let s := [(1%N, TVar 2%N); (0%N, TPair (TVar 1%N) (TAtom (ASym 0%N)))] in
+  g_unify 20 (TVar 0%N) (TPair (TAtom (AInt 5%Z)) (TVar 3%N)) s
+    = Ret (s ++ [(2%N, TAtom (AInt 5%Z)); (3%N, TAtom (ASym 0%N))], true) /\
+  g_unify 20 (TVar 0%N) (TPair (TVar 0%N) TNil) [] = Ret ([], false).
+Proof. vm_compute. split; reflexivity. Qed.
 
 (* non-vacuity: a var-var chain and a partially bound pair; the result has a non-empty extension;
    and an occurs-check failure *)
